@@ -1,80 +1,132 @@
-"""C08: the PARSING side of the location format (`parse_chunk_location`, `parse_snapshot_location`), read from the AST.
+"""C08: the PARSING side of the location format (`parse_chunk_location`, `parse_snapshot_location`), read from the source.
 
 The building side (`CHUNK_PREFIX`, `SNAPSHOT_PREFIX`, the `tag[:a] / tag[a:b] / tag[b:]` slicing) is extracted by the main
 translator (`Gen.chunkPrefix`, `Gen.snapshotPrefix`, `Gen.chunkLocSplit`, `Gen.snapLocSplit`).  Here: the separator given to
 `rpartition`, the separator and `maxsplit` of `rsplit`, and the indices of the parts that are concatenated into the tag.
 `ReplicatModel/Format.lean` is parameterised by these; `location_roundtrip` is proved about whatever they currently say.
 A shape that is not recognised yields `opaque` constants: the round-trip lemmas then stop compiling (reported), the model still builds.
+
+Recognition is SEMANTIC (`tools/symflow.py`): the function is executed symbolically on its location argument and the RESULT is
+inspected — independent of variable names, of intermediate variables / tuple unpacking, of helper functions the work is moved to,
+of how the guard is spelled (`if not ok: raise` / `if ok: … else: raise` / a checking helper) and of `+` vs f-string concatenation:
+
+    every normal return is  LocationParts(name = L.rpartition(c)[2],  tag = P[i1] + P[i2] + …)   with  P = L.rpartition(c)[0].rsplit(d, k)
+    and is reached only under  L.startswith(<the class's prefix constant>);  otherwise a ValueError is raised.
 """
 import ast
-import re
+
+import symflow as sf
+from symflow import is_const, method_call
 
 
-def _parse_shape(ctx, fn, prefix_attr):
-    """→ (rpartition sep, rsplit sep, maxsplit, [indices]) or None.  Structural (AST) recognition, independent of variable names,
-    comments and docstrings:
-        if not <loc>.startswith(self.<PREFIX>): raise ValueError(...)
-        <h>, _, <n> = <loc>.rpartition('<c>')
-        <p> = <h>.rsplit('<d>', <k>)
-        return LocationParts(name=<n>, tag=<p>[i1] + <p>[i2] + ...)"""
-    if fn is None:
-        return None
-    body = [s for s in fn.body if not (isinstance(s, ast.Expr) and isinstance(getattr(s, 'value', None), ast.Constant))]
-    if len(body) != 4:
-        return None
-    guard, part, split, ret = body
-    loc = fn.args.posonlyargs[1].arg if len(fn.args.posonlyargs) > 1 else (fn.args.args[1].arg if len(fn.args.args) > 1 else None)
-    if loc is None:
-        return None
-    if not (isinstance(guard, ast.If) and ctx.unparse(guard.test) == f'not {loc}.startswith(self.{prefix_attr})' and not guard.orelse
-            and len(guard.body) == 1 and isinstance(guard.body[0], ast.Raise) and ctx.unparse(guard.body[0].exc).startswith('ValueError(')):
-        return None
-    if not (isinstance(part, ast.Assign) and len(part.targets) == 1 and isinstance(part.targets[0], ast.Tuple) and len(part.targets[0].elts) == 3
-            and all(isinstance(e, ast.Name) for e in part.targets[0].elts)):
-        return None
-    h, _, n = (e.id for e in part.targets[0].elts)
-    c = part.value
-    if not (isinstance(c, ast.Call) and isinstance(c.func, ast.Attribute) and c.func.attr == 'rpartition' and ctx.unparse(c.func.value) == loc
-            and len(c.args) == 1 and not c.keywords and isinstance(c.args[0], ast.Constant) and isinstance(c.args[0].value, str) and len(c.args[0].value) == 1):
-        return None
-    nsep = c.args[0].value
-    if not (isinstance(split, ast.Assign) and len(split.targets) == 1 and isinstance(split.targets[0], ast.Name)):
-        return None
-    p = split.targets[0].id
-    c = split.value
-    if not (isinstance(c, ast.Call) and isinstance(c.func, ast.Attribute) and c.func.attr == 'rsplit' and ctx.unparse(c.func.value) == h
-            and len(c.args) == 2 and not c.keywords and isinstance(c.args[0], ast.Constant) and isinstance(c.args[0].value, str) and len(c.args[0].value) == 1
-            and isinstance(c.args[1], ast.Constant) and isinstance(c.args[1].value, int)):
-        return None
-    dsep, k = c.args[0].value, c.args[1].value
-    if not (isinstance(ret, ast.Return) and isinstance(ret.value, ast.Call) and ctx.unparse(ret.value.func) == 'LocationParts' and not ret.value.args):
-        return None
-    kws = {kw.arg: kw.value for kw in ret.value.keywords}
-    if set(kws) != {'name', 'tag'} or ctx.unparse(kws['name']) != n:
-        return None
-    idx = []
+def _own(e):
+    return not any(c[0] in ('inline', 'deferred') for c in e.ctx)
 
-    def walk(e):
-        if isinstance(e, ast.BinOp) and isinstance(e.op, ast.Add):
-            return walk(e.left) and walk(e.right)
-        if (isinstance(e, ast.Subscript) and isinstance(e.value, ast.Name) and e.value.id == p and isinstance(e.slice, ast.Constant)
-                and isinstance(e.slice.value, int) and e.slice.value >= 0):
-            idx.append(e.slice.value)
-            return True
-        return False
-    if not walk(kws['tag']):
+
+def _flatten_concat(v):
+    """`a + b + c` / f'{a}{b}{c}' → [a, b, c]"""
+    if v[0] == 'binop' and v[1] == 'Add':
+        return _flatten_concat(v[2]) + _flatten_concat(v[3])
+    if v[0] == 'concat':
+        out = []
+        for p in v[1]:
+            out.extend(_flatten_concat(p))
+        return out
+    return [v]
+
+
+def _fields(mod, cls_name):
+    cls = mod.classes.get(cls_name)
+    if cls is None:
         return None
-    return nsep, dsep, k, idx
+    return [st.target.id for st in cls.body if isinstance(st, ast.AnnAssign) and isinstance(st.target, ast.Name)]
+
+
+def _parse_shape(mod, fname, prefix_attr):
+    """→ (rpartition sep, rsplit sep, maxsplit, [indices]) or None"""
+    interp = sf.Interp(mod, 'Repository')
+    events, _ = interp.run(fname)
+    if not events:
+        return None
+    loc = ('arg', 0)
+    try:
+        prefix = sf.const(ast.literal_eval(sf.class_assigns(mod.classes['Repository'])[prefix_attr]))
+    except Exception:  # noqa: BLE001
+        return None
+    starts = ('call', ('attr', loc, 'startswith'), (prefix,), ())
+    rets = [e for e in events if e.kind == 'return' and _own(e)]
+    raises = [e for e in events if e.kind == 'raise' and (starts, False) in e.guard]
+    if not rets or not any(e.value[0] == 'call' and e.value[1] == ('global', 'ValueError') for e in raises):
+        return None
+    shapes = set()
+    for r in rets:
+        if (starts, True) not in r.guard:
+            return None
+        v = r.value
+        if v[0] != 'call' or v[1] not in (('class', 'LocationParts'),) and not (v[1][0] == 'global' and v[1][1].split('.')[-1] == 'LocationParts'):
+            return None
+        kw = dict(v[3])
+        fields = _fields(mod, 'LocationParts') or ['name', 'tag']
+        for f, a in zip(fields, v[2]):
+            kw.setdefault(f, a)
+        if set(kw) != {'name', 'tag'}:
+            return None
+        name, tag = kw['name'], kw['tag']
+        # name = L.rpartition(c)[2]
+        if not (name[0] == 'sub' and name[2] == ('const', 2)):
+            return None
+        rp = method_call(name[1], ('rpartition',))
+        if rp is None or rp[0] != loc or len(rp[2]) != 1 or rp[3] or not is_const(rp[2][0], str) or len(rp[2][0][1]) != 1:
+            return None
+        head = ('sub', name[1], ('const', 0))
+        idx = []
+        splits = set()
+        for part in _flatten_concat(tag):
+            if not (part[0] == 'sub' and is_const(part[2], int) and part[2][1] >= 0):
+                return None
+            rs = method_call(part[1], ('rsplit',))
+            if rs is None or rs[0] != head or rs[3]:
+                return None
+            a = rs[2]
+            if not (len(a) == 2 and is_const(a[0], str) and len(a[0][1]) == 1 and is_const(a[1], int)):
+                return None
+            splits.add((a[0][1], a[1][1]))
+            idx.append(part[2][1])
+        if len(splits) != 1 or not idx:
+            return None
+        dsep, k = next(iter(splits))
+        shapes.add((rp[2][0][1], dsep, k, tuple(idx)))
+    if len(shapes) != 1:
+        return None
+    nsep, dsep, k, idx = next(iter(shapes))
+    return nsep, dsep, k, list(idx)
+
+
+def _build_sep(mod, fname):
+    """the constant between the tag remainder and the name in the last component the builder joins:
+    `posixpath.join(…, <tag[n:]> + SEP + <name>)` → SEP (one character) or None"""
+    interp = sf.Interp(mod, 'Repository')
+    events, ret = interp.run(fname)
+    if not events or ret is None:
+        return None
+    g = sf.global_call(ret, ('posixpath.join', 'os.path.join'))
+    if g is None or not g[1]:
+        return None
+    parts = _flatten_concat(g[1][-1])
+    name, tag = ('arg', 'name'), ('arg', 'tag')
+    if len(parts) == 3 and parts[0][0] == 'sub' and parts[0][1] == tag and parts[0][2][0] == 'slice' and parts[0][2][2] == sf.NONE \
+            and is_const(parts[1], str) and len(parts[1][1]) == 1 and parts[2] == name:
+        return parts[1][1]
+    return None
 
 
 def section(ctx):
     src = (ctx.REPO / 'replicat' / 'repository.py').read_text()
-    tree = ast.parse(src)
+    mod = sf.Module(src)
     for lean, fname, attr in (('chunk', 'parse_chunk_location', 'CHUNK_PREFIX'), ('snap', 'parse_snapshot_location', 'SNAPSHOT_PREFIX')):
-        fn = ctx.find_func(tree, 'Repository', fname)
         shape = None
         try:
-            shape = _parse_shape(ctx, fn, attr)
+            shape = _parse_shape(mod, fname, attr)
         except Exception as e:  # noqa: BLE001
             ctx.notes['format.' + fname] = f'failed: {e!r}'
         if shape is None:
@@ -91,11 +143,13 @@ def section(ctx):
             ctx.emit(f'def {lean}ParseIdx : List Nat := [{", ".join(map(str, idx))}]')
     # the separator between tag remainder and name on the building side (f'{tag[k:]}-{name}')
     for lean, fname in (('chunk', 'get_chunk_location'), ('snap', 'get_snapshot_location')):
-        fn = ctx.find_func(tree, 'Repository', fname)
-        txt = ctx.unparse(fn.body[-1]) if fn is not None else ''
-        m = re.search(r"f'\{tag\[\d+:\]\}(.)\{name\}'\)$", txt)
-        if m and txt.startswith('return posixpath.join('):
-            ctx.emit(f"def {lean}BuildNameSep : Char := '{m.group(1)}'")
+        sep = None
+        try:
+            sep = _build_sep(mod, fname)
+        except Exception as e:  # noqa: BLE001
+            ctx.notes['format.' + fname] = f'failed: {e!r}'
+        if sep is not None and sep not in ("'", '\\'):
+            ctx.emit(f"def {lean}BuildNameSep : Char := '{sep}'")
         else:
             ctx.notes['format.' + fname] = 'name separator not recognised'
             ctx.emit(f'opaque {lean}BuildNameSep : Char')
